@@ -22,7 +22,7 @@ def gen(rng, tier):
     huge = big and rng.random() < 0.25
     net = G.gen_net(rng, n_inputs=(9, 11) if huge else ((5, 8) if big else (1, 5)), n_gates=(2, 12), types=G.swarm_types(rng),
                     max_arity=rng.randint(2, 5) if not big else rng.randint(3, 8), constants=0.2,
-                    name_style=rng.choice(("plain", "plain", "underscore")), input_outputs=0.1, min_outputs=1,
+                    name_style=rng.choice(("plain", "plain", "underscore")), input_outputs=rng.choice((0.1, 0.1, 0.3)), min_outputs=1,
                     parity_bias=rng.choice((0.0, 0.3)))
     if rng.random() < 0.12:
         # a functionally constant node: x & ~x
@@ -42,6 +42,9 @@ def gen(rng, tier):
         else:
             picks.append(rng.choice(names))
     outs = ref.outputs(net)
+    ft = [n for n in outs if net["nodes"][n][0] == "input"]
+    if ft and rng.random() < 0.5:
+        picks.append(rng.choice(ft))   # a feed-through pin: startpoint and endpoint at once
     eps = None
     if rng.random() < 0.4 and outs:
         eps = rng.sample(outs, rng.randint(1, len(outs)))
